@@ -214,7 +214,7 @@ def run_property(chk, spec, replay=None):
         inp = c["input"]
         robj = {"property": pid, "kind": "per-run certificate check", "what": what, "status": inp["status"],
                 "label": inp.get("label"), "diagnosis": diag, "verdict_digits": d,
-                "input": {"problem": inp["problem"]}, "outcome": inp.get("outcome"), "direct": inp.get("direct"),
+                "input": {"problem": inp["problem"], "resolve_after_update": inp.get("resolve_after_update")}, "outcome": inp.get("outcome"), "direct": inp.get("direct"),
                 "replay_cmd": "./check %s --replay <this file>" % pid}
         key = None
         if pid == "C03" and inp["status"] in ("AlmostPrimalInfeasible", "AlmostDualInfeasible") and inp.get("outcome", {}).get("rollbacks", 0) > 0 \
